@@ -154,7 +154,46 @@ def yaml_text(entries):
 
 
 # --------------------------------------------------------------------------- one execution
-class Exec:
+class Stepper:
+    """Stepping primitives shared by both families: a design-spec action = "run thread rec up to its parked
+    visible operation, fire it, run on until it is parked at the next visible operation, blocked or finished"."""
+
+    def _can_run(self, rec):
+        op = rec.pending
+        return (not rec.finished) and op is not None and (op.ready() or (op.deadline is not None and op.deadline <= self.s.now))
+
+    def act(self, rec, target, limit=400):
+        """run thread rec up to its parked visible operation `target`, fire it, then run on until it is
+        parked at the next visible operation, blocked or finished"""
+        n = 0
+        while True:
+            op = rec.pending
+            if rec.finished or op is None:
+                return 'finished-before-%s' % target
+            if self._visible(rec) and self._kind(rec) == target:
+                break
+            if self._visible(rec) and self._kind(rec) != target and self._kind(rec) not in ('updq.get',):
+                return 'parked-at-%s-not-%s' % (self._kind(rec), target)
+            if not self._can_run(rec):
+                return 'blocked-at-%s-before-%s' % (op.kind, target)
+            self.s.step_thread(rec)
+            n += 1
+            if n > limit:
+                return 'runaway'
+        if not self._can_run(rec):
+            return 'target-not-enabled'
+        self.s.step_thread(rec)
+        n = 0
+        while not rec.finished and rec.pending is not None and not self._visible(rec) and self._can_run(rec):
+            self.s.step_thread(rec)
+            n += 1
+            if n > limit:
+                return 'runaway'
+        return 'ok'
+
+
+
+class Exec(Stepper):
     """One scenario against the real code.  sc:
          np, types [type byte], nature ['ok'|'ro'|'nonpers'], status [store status], resend (bool),
          calls [[ [p, q, how], ... ], ...]   files of the successive calls on ONE helper object
@@ -472,39 +511,6 @@ class Exec:
         if op.kind == 'queue.get' and op.obj is self.upd.request_queue and rec is self.urec:
             return True         # the updater is about to take the next request (not close() draining the FIFO)
         return False
-
-    def _can_run(self, rec):
-        op = rec.pending
-        return (not rec.finished) and op is not None and (op.ready() or (op.deadline is not None and op.deadline <= self.s.now))
-
-    def act(self, rec, target, limit=400):
-        """run thread rec up to its parked visible operation `target`, fire it, then run on until it is
-        parked at the next visible operation, blocked or finished"""
-        n = 0
-        while True:
-            op = rec.pending
-            if rec.finished or op is None:
-                return 'finished-before-%s' % target
-            if self._visible(rec) and self._kind(rec) == target:
-                break
-            if self._visible(rec) and self._kind(rec) != target and self._kind(rec) not in ('updq.get',):
-                return 'parked-at-%s-not-%s' % (self._kind(rec), target)
-            if not self._can_run(rec):
-                return 'blocked-at-%s-before-%s' % (op.kind, target)
-            self.s.step_thread(rec)
-            n += 1
-            if n > limit:
-                return 'runaway'
-        if not self._can_run(rec):
-            return 'target-not-enabled'
-        self.s.step_thread(rec)
-        n = 0
-        while not rec.finished and rec.pending is not None and not self._visible(rec) and self._can_run(rec):
-            self.s.step_thread(rec)
-            n += 1
-            if n > limit:
-                return 'runaway'
-        return 'ok'
 
     def _kind(self, rec):
         op = rec.pending
@@ -1226,3 +1232,849 @@ ASSUMPTIONS = [
     'with non-zero status is not performed; values are multiples of 1/4 so that float <-> integer conversion is exact',
     'one helper object is used by one thread at a time; one connection per execution (no reconnect)',
 ]
+
+
+# =========================================================================== family B: log helpers
+# device log table: the helper's variables are not at the indices of their numbers, and there are decoys
+RANGER_NAMES = ['range.front', 'range.back', 'range.left', 'range.right', 'range.up', 'range.zrange']
+EST_NAMES = ['kalman.varPX', 'kalman.varPY', 'kalman.varPZ']
+LOG_TOC_B = [('pm.vbat', 7), ('range.up', 2), ('kalman.varPZ', 7), ('range.front', 2), ('range.zrange', 2),
+             ('stabilizer.roll', 7), ('range.left', 2), ('kalman.varPX', 7), ('range.back', 2), ('range.right', 2),
+             ('kalman.varPY', 7), ('range.fake', 2)]
+CTL_NAMES = {0: 'create', 6: 'create', 1: 'append', 7: 'append', 2: 'delete', 3: 'start', 4: 'stop', 5: 'reset'}
+LOG_FMT = {1: '<B', 2: '<H', 3: '<L', 4: '<b', 5: '<h', 6: '<i', 7: '<f'}      # [fw log.h]
+
+
+def EB(e, **kw):
+    d = {'e': e, 'op': '', 'cmd': '', 'id': 0, 'vars': [], 'per': 0, 'st': 0, 'vals': [], 'read': [], 'v': 0, 't': 0,
+         'res': ''}
+    d.update(kw)
+    return d
+
+
+def gate(kind, ready):
+    s = vcore.CUR
+    if s is not None and s.current() is not None:
+        s.yield_op(vcore.Op(kind, None, ready, lambda: None))
+
+
+class BDevice(sd.Device):
+    """log control messages (port 5 channel 1) and parameter writes (port 2 channel 2) are executed when they
+    arrive and answered at once into the host's in_queue; both are observable (parking) events"""
+
+    def __init__(self, *a, **kw):
+        super().__init__(*a, **kw)
+        self.manual = False
+        self.x = None
+
+    def uplink(self, link, pk):
+        if self.manual and pk.port == sv.PORT_LOG and pk.channel == 1:
+            marker('obs.ctl')
+            if link.closed or link is not self.link:
+                return
+            self.up_n += 1
+            reps = self.services[sv.PORT_LOG].handle(pk)
+            self.x.on_ctl(pk, reps)
+            for r in reps:
+                self._deliver(link, r, 'deliver')
+            return
+        if self.manual and pk.port == sv.PORT_PARAM and pk.channel == 2:
+            marker('obs.pset')
+            if link.closed or link is not self.link:
+                return
+            self.up_n += 1
+            reps = self.services[sv.PORT_PARAM].handle(pk)
+            self.x.on_pset(pk)
+            for r in reps:
+                self._deliver(link, r, 'deliver')
+            return
+        return super().uplink(link, pk)
+
+    def detach(self, link):
+        if self.manual and self.link is link:
+            marker('obs.down')
+            self.x.ev.append(EB('down'))
+        return super().detach(link)
+
+
+def kval(x):
+    """Python float -> exact integer value * 65536 (-9 if not representable)"""
+    try:
+        fr = Fraction(x) * 65536
+    except Exception:
+        return -9
+    return int(fr) if fr.denominator == 1 and abs(fr) < 2 ** 31 else -9
+
+
+def mm_of(x):
+    """Multiranger property -> millimetres (exact: n/1000.0 == x), -1 for None, -2 otherwise"""
+    if x is None:
+        return -1
+    if isinstance(x, float):
+        n = int(round(x * 1000))
+        if 0 <= n < 2 ** 31 and n / 1000.0 == x:
+            return n
+    return -2
+
+
+class ExecB(Stepper):
+    """One scenario of family B.  sc: mode 'ranger'|'estimator', rate, haskalman, script [op], data [vector],
+    driver, down"""
+    STOPS = ('obs.begin', 'obs.end', 'obs.ctl', 'obs.pset', 'obs.ack', 'obs.data', 'obs.prx', 'obs.wake', 'obs.take',
+             'obs.down')
+
+    def __init__(self, sc, s, mutant=None):
+        import cflib.crazyflie as cfm
+        self.sc = sc
+        self.s = s
+        self.ev = []
+        self.errors = []
+        self.mode = sc['mode']
+        self.names = RANGER_NAMES if self.mode == 'ranger' else EST_NAMES
+        self.gate_open = 0
+        self.nbegun = 0
+        self.downthr = None
+        self.down = False
+        self.rx_held = None
+        self.ndata = 0
+        self.undo = []
+        self.sent_types = {}
+        self.bid_sent = 0
+        w = sd.set_world(sd.World())
+        entries = [{'group': n.split('.')[0].encode(), 'name': n.split('.')[1].encode(), 'type': t} for (n, t) in LOG_TOC_B]
+        params = [{'group': b'ring', 'name': b'effect', 'type': 0x08, 'value': b'\x06', 'default': b'\x06', 'ext': 0}]
+        if sc.get('haskalman', True):
+            params.append({'group': b'kalman', 'name': b'resetEstimation', 'type': 0x08, 'value': b'\x00',
+                           'default': b'\x00', 'ext': 0})
+        self.kalman_id = len(params) - 1 if sc.get('haskalman', True) else -1
+        self.dev = dev = BDevice({
+            sv.PORT_LINK: sv.LinkService(), sv.PORT_PLATFORM: sv.PlatformService(10),
+            sv.PORT_LOG: sv.LogService(sv.TocTable(entries, 0x5F02B000 + len(entries))),
+            sv.PORT_PARAM: sv.ParamService(sv.TocTable(params, 0x5F02C000 + len(params))),
+            sv.PORT_MEM: sv.MemoryService([])}, mode='sync', needs_resending=False)
+        dev.x = self
+        w.add('0', dev)
+        self.logsvc = dev.services[sv.PORT_LOG]
+        self.cf = cf = cfm.Crazyflie(rw_cache=None)
+        done = {}
+        cf.fully_connected.add_callback(lambda uri: done.setdefault('fc', True))
+        s.spawn(lambda: cf.open_link('sim://0/1'), 'setup')
+        why = s.run(until=lambda: done.get('fc'), horizon=60.0)
+        if not done.get('fc'):
+            raise common.MachineryError('simulated connect did not complete (%s): %s' % (why, s.report()))
+        t2 = s.spawn(lambda: cf.link_statistics.stop(), 'setup')
+        s.run(until=lambda: t2.finished, horizon=s.now + 5.0)
+        s.run(until=lambda: not s.enabled()[0], horizon=s.now + 5.0, policy=vsched.FifoPolicy())
+        self.upd = cf.param.param_updater
+        self.urec = next(r for r in s.threads if r.vt is self.upd)
+        self.drec = next(r for r in s.threads if r.vt is cf.incoming)
+        self.link0 = cf.link
+        if mutant:
+            self.undo.append(mutant(self))
+        dev.manual = True
+        self.t0 = self.now_ms()
+
+        # ---- observation points
+        def on_rx(pk):
+            if pk.port == sv.PORT_LOG and pk.channel == 1 and len(pk.data) >= 3 and pk.data[0] != 5:
+                self.rx_held = pk
+                marker('obs.ack')
+                self.rx_held = None
+                self.ev.append(EB('ack', cmd=CTL_NAMES.get(pk.data[0], 'cmd%d' % pk.data[0]), id=pk.data[1], st=pk.data[2]))
+            elif pk.port == sv.PORT_LOG and pk.channel == 2:
+                self.rx_held = pk
+                marker('obs.data')
+                self.rx_held = None
+            elif pk.port == sv.PORT_PARAM and pk.channel == 2:
+                self.rx_held = pk
+                marker('obs.prx')
+                self.rx_held = None
+                self.ev.append(EB('prx', v=pk.data[2] if len(pk.data) > 2 else 0))
+        cf.packet_received.add_callback(on_rx)
+
+        def after_log(pk):
+            if pk.channel == 2:
+                bid = pk.data[0]
+                self.ev.append(EB('data', id=bid, vals=self.decode_payload(bid, bytes(pk.data[4:])), read=self.read_props()))
+        cf.add_port_callback(sv.PORT_LOG, after_log)          # after Log's own port callback
+
+        q = self.upd.request_queue
+        q_put = q._put
+
+        def logged_put(item):
+            d = bytes(item.data)
+            if item.channel == 2 and len(d) >= 3 and (d[0] | (d[1] << 8)) == self.kalman_id:
+                self.ev.append(EB('pcall', v=d[2], t=self.now_ms()))
+            q_put(item)
+        q._put = logged_put
+
+        # time.sleep() of reset_estimator and Queue.get() of SyncLogger made visible (module-level substitutes
+        # that park and log after the real operation returned)
+        import cflib.utils.reset_estimator as rem
+        import cflib.crazyflie.syncLogger as slm
+        me = self
+        vt = rem.time
+        while getattr(vt, '_x02_base', None) is not None:
+            vt = vt._x02_base
+
+        class TimeProxy:
+            _x02_base = vt
+
+            def __getattr__(self, name):
+                return getattr(vt, name)
+
+            def sleep(self, x):
+                vt.sleep(x)
+                marker('obs.wake')
+                me.ev.append(EB('wake', t=me.now_ms()))
+        rem.time = TimeProxy()
+        self.undo.append(lambda: setattr(rem, 'time', vt))
+        qb = slm.Queue
+        while getattr(qb, '_x02_base', None) is not None:
+            qb = qb._x02_base
+
+        class ObsQueue(qb):
+            _x02_base = qb
+
+            def get(self, block=True, timeout=None):
+                r = qb.get(self, block, timeout)
+                marker('obs.take')
+                if isinstance(r, tuple) and len(r) == 3 and isinstance(r[1], dict):
+                    me.ev.append(EB('take', vals=[kval(r[1].get(n)) for n in EST_NAMES]))
+                else:
+                    me.ev.append(EB('take'))
+                return r
+        slm.Queue = ObsQueue
+        self.undo.append(lambda: setattr(slm, 'Queue', qb))
+        self.mr = None
+        self.user = None
+
+    def cleanup(self):
+        for u in reversed(self.undo):
+            if callable(u):
+                u()
+
+    def now_ms(self):
+        return int(round(self.s.now * 1000))
+
+    # -- device observers / conversions
+    def var_no(self, idx):
+        name = LOG_TOC_B[idx][0] if idx < len(LOG_TOC_B) else ''
+        return self.names.index(name) + 1 if name in self.names else 100 + idx
+
+    def on_ctl(self, pk, reps):
+        d = bytes(pk.data)
+        cmd = CTL_NAMES.get(d[0], 'cmd%d' % d[0])
+        bid = d[1] if len(d) > 1 else 0
+        e = EB('ctl', cmd=cmd, id=bid)
+        if cmd == 'create':
+            self.bid_sent = bid
+        if cmd in ('create', 'append'):
+            e['vars'] = [[self.var_no(ref), tb & 0x0F, (tb >> 4) & 0x0F] for (tb, _k, ref) in
+                         self.logsvc._parse_vars(d[2:], d[0] in (6, 7))]
+        if cmd == 'start':
+            e['per'] = d[2] if len(d) > 2 else 0
+        if cmd == 'reset':
+            return
+        self.ev.append(e)
+
+    def on_pset(self, pk):
+        d = bytes(pk.data)
+        i = d[0] | (d[1] << 8)
+        if i == self.kalman_id:
+            self.ev.append(EB('pset', v=d[2]))
+        else:
+            self.ev.append(EB('pset', v=1000 + i))
+
+    def decode_payload(self, bid, payload):
+        types = self.sent_types.get(bid)
+        if types is None:
+            return [-9]
+        out, pos = [], 0
+        for t in types:
+            n = struct.calcsize(LOG_FMT[t])
+            v = struct.unpack(LOG_FMT[t], payload[pos:pos + n])[0]
+            pos += n
+            out.append(kval(v) if t == 7 else int(v))
+        return out
+
+    def read_props(self):
+        if self.mode != 'ranger' or self.mr is None:
+            return []
+        m = self.mr
+        return [mm_of(x) for x in (m.front, m.back, m.left, m.right, m.up, m.down)]
+
+    def emit(self, vec):
+        """the device sends one sample of its started block (values: ranger mm, estimator value * 65536)"""
+        blocks = [(bid, b) for bid, b in self.logsvc.blocks.items() if b['started']]
+        if not blocks or self.dev.link is None:
+            return False
+        bid, b = blocks[0]
+        types = [tb & 0x0F for (tb, _k, _r) in b['vars']]
+        if len(types) != len(vec):
+            vec = (list(vec) + [0] * len(types))[:len(types)]
+        payload = b''
+        for t, v in zip(types, vec):
+            payload += struct.pack(LOG_FMT[t], (v / 65536.0) if t == 7 else int(v))
+        self.sent_types = dict(self.sent_types)
+        self.sent_types[bid] = types
+        self.ndata += 1
+        self.ev.append(EB('emit', id=bid, vals=[int(v) for v in vec]))
+        self.dev.emit(self.logsvc.data_packet(bid, self.ndata & 0xFFFFFF, payload))
+        return True
+
+    def can_emit(self):
+        return self.dev.link is not None and any(b['started'] for b in self.logsvc.blocks.values())
+
+    # -- user thread
+    def start_user(self):
+        sc = self.sc
+        cf = self.cf
+
+        def begin(op, res=''):
+            k = self.nbegun
+            gate('obs.begin', lambda: self.gate_open > k)
+            self.nbegun += 1
+            self.ev.append(EB('begin', op=op, res=res))
+
+        def end(op, res):
+            marker('obs.end')
+            self.ev.append(EB('end', op=op, res=res))
+
+        def body():
+            from cflib.utils.multiranger import Multiranger
+            from cflib.utils.reset_estimator import reset_estimator
+            for o in sc['script']:
+                op = 'exit' if o == 'exitexc' else o
+                begin(op, 'exc' if o == 'exitexc' else '')
+                res = ''
+                try:
+                    if o in ('start', 'enter') and self.mr is None:
+                        target = cf
+                        if sc.get('sync'):
+                            from cflib.crazyflie.syncCrazyflie import SyncCrazyflie
+                            target = SyncCrazyflie('sim://0/1', cf=cf)
+                        self.mr = Multiranger(target, rate_ms=sc['rate'])
+                    if o == 'start':
+                        self.mr.start()
+                    elif o == 'stop':
+                        self.mr.stop()
+                    elif o == 'enter':
+                        r = self.mr.__enter__()
+                        res = 'self' if r is self.mr else 'other'
+                    elif o == 'exit':
+                        self.mr.__exit__(None, None, None)
+                    elif o == 'exitexc':
+                        try:
+                            raise _BodyError('raised by the with-body')
+                        except _BodyError as e:
+                            sup = self.mr.__exit__(type(e), e, e.__traceback__)
+                            res = 'swallowed' if sup else 'propagated'
+                    elif o == 'reset':
+                        reset_estimator(cf)
+                except Exception as e:
+                    res = type(e).__name__
+                end(op, res)
+        self.user = self.s.spawn(body, 'user')
+        return self.user
+
+    def linkdown(self, kind='error'):
+        link = self.dev.link
+        cf = self.cf
+        if kind == 'close':
+            self.downthr = self.s.spawn(lambda: cf.close_link(), 'closer')
+        else:
+            self.downthr = self.s.spawn(lambda: link.report_error('simulated link failure'), 'simdriver')
+        self.down = True
+        return self.downthr
+
+    def settle(self, horizon=5.0):
+        s = self.s
+        return s.run(until=lambda: not s.enabled()[0], horizon=s.now + horizon, policy=vsched.FifoPolicy())
+
+    def trace(self):
+        blocked = self.user is not None and not self.user.finished
+        return {'mode': self.mode, 'rate': self.sc['rate'], 'haskalman': bool(self.sc.get('haskalman', True)),
+                'script': list(self.sc['script']), 't0': self.t0, 'ev': self.ev, 'blocked': bool(blocked),
+                'devblocks': len(self.logsvc.blocks), 'linkup': self.cf.link is not None,
+                'dead': [t['name'] for t in self.s.report() if t['status'] == 'dead'], 'errors': self.errors}
+
+    # ------------------------------------------------------------------ code -> spec driver
+    def run_driver(self, ch, max_iter=20000):
+        s = self.s
+        sc = self.sc
+        data = list(sc.get('data', []))
+        self.start_user()
+        it = 0
+        while it < max_iter:
+            it += 1
+            run = self.s.enabled()[0]
+            opts = [('step', r) for r in run]
+            if data and self.can_emit():
+                opts.append('emit')
+            if self.gate_open < len(sc['script']) and self.gate_open <= self.nbegun:
+                opts.append('next')
+            if not self.down and sc.get('down'):
+                opts.append(sc['down'])
+            if self.user.finished and not run:
+                break
+            c = ch.choose(self, opts)
+            if c is None:
+                # nothing chosen: let virtual time pass once (the 0.1 s sleep), then give up
+                timed = self.s.enabled()[1]
+                if timed and not getattr(self, '_ticked', 0) > 40:
+                    self._ticked = getattr(self, '_ticked', 0) + 1
+                    self.s.tick(timed)
+                    continue
+                break
+            if isinstance(c, tuple):
+                s.trace.append(c[1].name)
+                s.step_thread(c[1])
+            elif c == 'emit':
+                self.emit(data.pop(0))
+            elif c == 'next':
+                self.gate_open += 1
+            elif c in ('down', 'close'):
+                self.linkdown('close' if c == 'close' else 'error')
+            elif c == 'tick':
+                self.s.tick(self.s.enabled()[1])
+        # fair end: everything that can still run runs, up to the horizon
+        self.settle()
+        if not self.user.finished:
+            self.s.run(until=lambda: self.user.finished, horizon=self.s.now + 30.0, policy=vsched.FifoPolicy())
+
+    # ------------------------------------------------------------------ spec -> code replay
+    def _visible(self, rec):
+        op = rec.pending
+        if op is None:
+            return False
+        if op.kind in ('obs.ctl', 'obs.pset') and self.cf.link is None:
+            return False            # the packet is lost with the link: no event
+        if op.kind in self.STOPS:
+            return True
+        if op.kind == 'queue.put' and op.obj is self.upd.request_queue and rec is self.user:
+            return True
+        if op.kind == 'queue.get' and op.obj is self.upd.request_queue and rec is self.urec:
+            return True
+        return False
+
+    def _kind(self, rec):
+        op = rec.pending
+        if op.kind == 'queue.put' and op.obj is self.upd.request_queue:
+            return 'updq.put'
+        if op.kind == 'queue.get' and op.obj is self.upd.request_queue:
+            return 'updq.get'
+        return op.kind
+
+    def run_on(self, rec, limit=400):
+        n = 0
+        while not rec.finished and rec.pending is not None and not self._visible(rec) and self._can_run(rec) and n < limit:
+            self.s.step_thread(rec)
+            n += 1
+
+    def project(self):
+        cf = self.cf
+        lc = None
+        if self.mode == 'ranger' and self.mr is not None:
+            lc = self.mr._log_config
+        elif self.mode == 'estimator':
+            lc = next((b for b in cf.log.log_blocks if b.name == 'Kalman Variance'), None)
+        blocks = self.logsvc.blocks
+        if blocks:
+            bid, b = sorted(blocks.items())[0]
+            dblk = {'id': bid, 'started': bool(b['started']), 'per': b['period'] if b['started'] or b['period'] else 0}
+        else:
+            dblk = {'id': 0, 'started': False, 'per': 0}
+
+        def kind(pk):
+            if pk.port == sv.PORT_LOG and pk.channel == 1:
+                return 'ack'
+            if pk.port == sv.PORT_LOG and pk.channel == 2:
+                return 'data'
+            if pk.port == sv.PORT_PARAM and pk.channel == 2:
+                return 'prx'
+            return 'other'
+        inq = [kind(pk) for pk in ([self.rx_held] if self.rx_held is not None else []) + list(self.link0.in_queue.queue)]
+        return {'bid': self.bid_sent, 'lccf': bool(lc is not None and lc.cf is not None), 'ladded': bool(lc._added) if lc is not None else False,
+                'dblk': dblk, 'inq': [k for k in inq if k != 'other'], 'link': 'up' if cf.link is not None else 'down',
+                'vals': self.read_props() if self.mode == 'ranger' and self.mr is not None else [-1] * 6,
+                'pq': [bytes(pk.data)[2] for pk in list(self.upd.request_queue.queue) if pk.channel == 2],
+                'pinfl': bool(self.upd.wait_lock.locked()), 'ndata': self.ndata}
+
+    def replay_step(self, name, args, st):
+        U = {'Begin': 'obs.begin', 'PCall': 'updq.put', 'SleepWake': 'obs.wake', 'SendCreate': 'obs.ctl',
+             'SendDelete': 'obs.ctl', 'SendStop': 'obs.ctl', 'UTake': 'obs.take', 'End': 'obs.end'}
+        if name == 'Begin':
+            if self.user is None:
+                self.start_user()
+            self.gate_open += 1
+        if name == 'SleepWake':
+            want = st['now'] / 1000.0
+            if want > self.s.now:
+                self.s.now = want
+        if name in U:
+            r = self.act(self.user, U[name])
+            return '' if r == 'ok' else r
+        if name == 'PTx':
+            r = self.act(self.urec, 'obs.pset')
+            return '' if r == 'ok' else r
+        if name in ('DispP', 'DispAck', 'DispData', 'SendStart'):
+            r = self.act(self.drec, {'DispP': 'obs.prx', 'DispAck': 'obs.ack', 'DispData': 'obs.data', 'SendStart': 'obs.ctl'}[name])
+            return '' if r == 'ok' else r
+        if name == 'EmitData':
+            return '' if self.emit(args[0]) else 'no started block'
+        if name == 'LinkDrop':
+            rec = self.linkdown('error')
+            r = self.act(rec, 'obs.down')
+            # operations parked just before a transmission are void now: let those threads run on
+            for t in (self.drec, self.urec, self.user):
+                if t is not None and not t.finished:
+                    self.run_on(t)
+            return '' if r == 'ok' else r
+        return 'unknown action ' + name
+
+
+class _BodyError(Exception):
+    pass
+
+
+class CanonChooserB:
+    """FIFO threads; when nothing is runnable: next sample, else next operation of the script; the link is
+    taken away after `down_at` recorded events"""
+
+    def __init__(self, down_at=None, data_first=True):
+        self.down_at = down_at
+        self.data_first = data_first
+
+    def choose(self, x, opts):
+        for d in ('down', 'close'):
+            if d in opts and self.down_at is not None and len(x.ev) >= self.down_at:
+                return d
+        steps = [o for o in opts if isinstance(o, tuple)]
+        if steps:
+            return steps[0]
+        if 'emit' in opts:
+            return 'emit'
+        if 'next' in opts:
+            return 'next'
+        return None
+
+
+class RandomChooserB:
+    def __init__(self, seed, p_env=0.1, p_down=0.004):
+        self.rng = random.Random(seed)
+        self.p_env = p_env
+        self.p_down = p_down
+
+    def choose(self, x, opts):
+        rng = self.rng
+        steps = [o for o in opts if isinstance(o, tuple)]
+        downs = [o for o in opts if o in ('down', 'close')]
+        env = [o for o in opts if o in ('emit', 'next')]
+        if downs and rng.random() < self.p_down:
+            return downs[0]
+        if env and (not steps or rng.random() < self.p_env):
+            if 'emit' in env and 'next' in env:
+                return 'emit' if rng.random() < 0.8 else 'next'
+            return env[0]
+        if steps:
+            return steps[rng.randrange(len(steps))]
+        return None
+
+
+def execute_b(job):
+    sc = job['sc']
+    mutant = MUTANTS_B[job['mutant']] if job.get('mutant') else None
+    buf = io.StringIO()
+    with contextlib.redirect_stdout(buf):
+        with vsched.scheduler(vsched.FifoPolicy(), max_steps=400000) as s:
+            x = None
+            try:
+                x = ExecB(sc, s, mutant=mutant)
+                drv = sc['driver']
+                ch = RandomChooserB(*drv[1:]) if drv[0] == 'random' else CanonChooserB(*drv[1:])
+                x.run_driver(ch)
+                t = x.trace()
+            finally:
+                if x is not None:
+                    x.cleanup()
+    t['sc'] = sc
+    return t
+
+
+def slim_b(t):
+    return {k: t[k] for k in ('id', 'rate', 'haskalman', 'script', 't0', 'ev', 'blocked', 'devblocks')}
+
+
+# --------------------------------------------------------------------------- in-memory mutants (family B)
+class MutantSkipped(Exception):
+    pass
+
+
+def _patch_source(owner, fname, old, new, count=1):
+    """recompile owner.fname (a function of a module or a method of a class) with `old` replaced by `new`"""
+    import inspect
+    import textwrap
+    fn = getattr(owner, fname)
+    fn = getattr(fn, '__func__', fn)
+    src = textwrap.dedent(inspect.getsource(fn))
+    if src.count(old) < 1:
+        raise MutantSkipped('%s: text %r not found' % (fname, old))
+    src2 = src.replace(old, new, count)
+    ns = {}
+    exec(compile(src2, '<mutant %s>' % fname, 'exec'), fn.__globals__, ns)
+    orig = owner.__dict__[fname] if isinstance(owner, type) else getattr(owner, fname)
+    setattr(owner, fname, ns[fn.__name__])
+    return lambda: setattr(owner, fname, orig)
+
+
+def _mr(fname, old, new):
+    def install(x):
+        import cflib.utils.multiranger as m
+        return _patch_source(m.Multiranger, fname, old, new)
+    return install
+
+
+def _re(fname, old, new, count=1):
+    def install(x):
+        import cflib.utils.reset_estimator as m
+        return _patch_source(m, fname, old, new, count)
+    return install
+
+
+def _sl(fname, old, new):
+    def install(x):
+        import cflib.crazyflie.syncLogger as m
+        return _patch_source(m.SyncLogger, fname, old, new)
+    return install
+
+
+MUTANTS_B = {
+    # Multiranger
+    'r_limit_gt': _mr('_convert_log_to_distance', 'data >= 8000', 'data > 8000'),
+    'r_no_limit': _mr('_convert_log_to_distance', 'data >= 8000', 'data >= 80000'),
+    'r_div_100': _mr('_convert_log_to_distance', 'data / 1000.0', 'data / 100.0'),
+    'r_swap_left_right': _mr('_data_received', 'data[self.LEFT]', 'data[self.RIGHT] if True else data[self.LEFT]'),
+    'r_up_from_front': _mr('_data_received', 'data[self.UP]', 'data[self.FRONT]'),
+    'r_no_zrange': _mr('_create_log_config', 'log_config.add_variable(self.DOWN)', 'pass'),
+    'r_order': _mr('_create_log_config', 'log_config.add_variable(self.FRONT)\n', 'log_config.add_variable(self.DOWN)\n'),
+    'r_stop_only_stops': _mr('stop', 'self._log_config.delete()', 'self._log_config.stop()'),
+    'r_exit_swallows': _mr('__exit__', 'self.stop()', 'self.stop()\n    return True'),
+    'r_exit_skips_on_exception': _mr('__exit__', 'self.stop()', 'if exc_type is None:\n        self.stop()'),
+    'r_enter_returns_none': _mr('__enter__', 'return self', 'return None'),
+    'r_rate_not_divided': _mr('_create_log_config', "LogConfig('multiranger', rate_ms)", "LogConfig('multiranger', rate_ms * 2)"),
+    # reset_estimator / SyncLogger
+    'e_no_zero_write': _re('reset_estimator', "cf.param.set_value('kalman.resetEstimation', '0')", 'pass'),
+    'e_zero_first': _re('reset_estimator', "cf.param.set_value('kalman.resetEstimation', '1')", "cf.param.set_value('kalman.resetEstimation', '0')"),
+    'e_short_sleep': _re('reset_estimator', 'time.sleep(0.1)', 'time.sleep(0.01)'),
+    'e_threshold_x10': _re('_wait_for_position_estimator', 'threshold = 0.001', 'threshold = 0.01'),
+    'e_window_5': _re('_wait_for_position_estimator', '* 10', '* 5', 3),
+    'e_any_axis': _re('_wait_for_position_estimator', '(max_x - min_x) < threshold and (', '(max_x - min_x) < threshold or ('),
+    'e_first_sample': _re('_wait_for_position_estimator', "data = log_entry[1]", "data = log_entry[1]\n            break"),
+    'e_z_ignored': _re('_wait_for_position_estimator', "var_z_history.append(data['kalman.varPZ'])", "var_z_history.append(data['kalman.varPY'])"),
+    'e_no_disconnect_event': _sl('_disconnected', 'self._queue.put(self.DISCONNECT_EVENT)', 'pass'),
+    'e_no_delete': _sl('disconnect', 'config.delete()', 'pass'),
+}
+
+
+# --------------------------------------------------------------------------- scenarios (family B)
+def _sweep_vectors(values):
+    """sample vectors such that every direction sees every value of `values`: vector j = six consecutive values"""
+    vals = list(values)
+    n = len(vals)
+    return [[vals[(j + k) % n] for k in range(6)] for j in range(n)]
+
+
+def sc_ranger(tier, rng):
+    out = []
+    scripts = [['start', 'stop'], ['enter', 'exit'], ['enter', 'exitexc'], ['start']]
+    base = [[100, 200, 300, 400, 500, 600], [7999, 8000, 8001, 0, 65535, 7999], [8000, 7999, 0, 8001, 1, 8000],
+            [0, 0, 0, 0, 0, 0], [65535] * 6, [1, 2, 3, 4, 5, 6]]
+    # every script x rate x canonical order, link loss at every event position of the short scripts
+    for sc in scripts:
+        for rate in (100, 50, 10, 2540, 1000):
+            out.append({'mode': 'ranger', 'rate': rate, 'script': sc, 'data': base, 'driver': ['canon', None], 'down': None,
+                        'sync': rate == 50})
+        for at in range(1, 14):
+            for kind in ('down', 'close'):
+                out.append({'mode': 'ranger', 'rate': 100, 'script': sc, 'data': base[:2], 'driver': ['canon', at], 'down': kind})
+    # value sweep: every uint16 value in every direction (quick: every 7th value + the neighbourhood of the limit)
+    if tier == 'quick':
+        values = sorted(set(range(0, 65536, 7)) | set(range(7900, 8100)) | {65535, 65534})
+    else:
+        values = list(range(65536))
+    vecs = _sweep_vectors(values)
+    chunk = 800
+    for i in range(0, len(vecs), chunk):
+        out.append({'mode': 'ranger', 'rate': 100, 'script': ['start', 'stop'], 'data': vecs[i:i + chunk],
+                    'driver': ['canon', None], 'down': None})
+    # random schedules, random data, link loss
+    for _ in range(60 if tier == 'quick' else 600):
+        data = [[rng.choice([rng.randrange(65536), rng.randrange(7990, 8010), 0, 65535]) for _ in range(6)]
+                for _ in range(rng.randint(0, 12))]
+        out.append({'mode': 'ranger', 'rate': rng.choice([10, 20, 100, 500, 2540]), 'script': rng.choice(scripts), 'data': data,
+                    'driver': ['random', rng.randrange(1 << 30), rng.choice([0.03, 0.1, 0.3]), rng.choice([0.002, 0.01])],
+                    'down': rng.choice([None, None, 'down', 'close']), 'sync': rng.random() < 0.3})
+    return out
+
+
+K = 65536
+
+
+def sc_estimator(tier, rng):
+    out = []
+
+    def sc(data, driver=None, down=None, haskalman=True):
+        return {'mode': 'estimator', 'rate': 500, 'haskalman': haskalman, 'script': ['reset'], 'data': data,
+                'driver': driver or ['canon', None], 'down': down}
+    A = [100, 100, 100]
+    # converges exactly at the 10th identical sample; one outlier pushes it back by ten
+    out.append(sc([A] * 10))
+    out.append(sc([A] * 9))                                   # never converges: stays blocked (allowed)
+    out.append(sc([A] * 4 + [[100, 170, 100]] + [A] * 10))
+    # threshold boundary: difference 65/65536 < 0.001 < 66/65536, on each axis
+    for ax in range(3):
+        for d in (60, 65, 66, 70):
+            b = list(A)
+            b[ax] += d
+            out.append(sc([A, b] * 5 + [A] * 10))
+    # padding quirk: samples within the threshold of 1000.0 converge at the first sample
+    out.append(sc([[1000 * K, 1000 * K, 1000 * K]] * 2))
+    out.append(sc([[1000 * K - 64, 1000 * K, 1000 * K + 0]] * 2 + [A] * 10))
+    out.append(sc([[1000 * K - 68, 1000 * K, 1000 * K]] * 2 + [A] * 10))
+    # slowly drifting values
+    out.append(sc([[100 + 8 * j, 5000 - 8 * j, 77] for j in range(30)]))
+    out.append(sc([[100 + 6 * j, 5000 - 6 * j, 77] for j in range(30)]))
+    # parameter missing
+    out.append(sc([A] * 10, haskalman=False))
+    # link loss at every event position
+    for at in range(1, 40 if tier == 'quick' else 60):
+        for kind in ('down', 'close'):
+            out.append(sc([A] * 12, driver=['canon', at], down=kind))
+    for _ in range(80 if tier == 'quick' else 800):
+        n = rng.randint(0, 25)
+        base = [rng.randrange(0, 1 << 20) for _ in range(3)]
+        data = []
+        for j in range(n):
+            if rng.random() < 0.15:
+                base = [rng.randrange(0, 1 << 20) for _ in range(3)]
+            data.append([b + rng.choice([0, 0, 1, 30, 65, 66, -40]) for b in base])
+        data = [[max(0, v) for v in d] for d in data]
+        out.append(sc(data, driver=['random', rng.randrange(1 << 30), rng.choice([0.03, 0.1, 0.3]), rng.choice([0.002, 0.01])],
+                      down=rng.choice([None, None, 'down', 'close']), haskalman=rng.random() < 0.95))
+    return out
+
+
+def run_scenarios_b(scs, mutant=None):
+    return common.pmap(execute_b, [{'sc': sc, 'mutant': mutant} for sc in scs], init=_init, maxtasks=200)
+
+
+def judge_b(out, traces, label, count=True):
+    bad, drift = [], []
+    for mode, cfg in (('ranger', 'TRACE_LogHelper_ranger.cfg'), ('estimator', 'TRACE_LogHelper_est.cfg')):
+        ts = [t for t in traces if t['mode'] == mode]
+        if not ts:
+            continue
+        for i, t in enumerate(ts):
+            t['id'] = i + 1
+        # long traces (value sweeps) are spread evenly over the batches
+        ts_sorted = sorted(ts, key=lambda t: -len(t['ev']))
+        verdicts, st = common.validate_traces('LogHelperTrace.tla', cfg, [slim_b(t) for t in ts_sorted],
+                                              chunk=max(1, (len(ts) + common.NCPU - 1) // common.NCPU))
+        if count:
+            out.traces += len(ts)
+            out.states += st['states']
+            out.transitions += st['transitions']
+            out.tlc_runs.append({'config': '%s (%s)' % (cfg, label), 'states': st['states'], 'transitions': st['transitions'],
+                                 'wall_s': round(st['wall_s'], 2), 'traces': len(ts)})
+        for t in ts:
+            clause, at, conf, conf_at = verdicts[t['id']]
+            t['verdict'] = [clause, at, conf, conf_at]
+            if clause != 'ok':
+                bad.append((t, clause, at))
+            elif not conf:
+                drift.append(t)
+    return bad, drift
+
+
+def signature_b(t, clause, at):
+    ops = [e['op'] for e in t['ev'][:max(at, 1)] if e['e'] == 'begin']
+    lost = any(e['e'] == 'down' for e in t['ev'][:max(at, 1)])
+    return '%s/%s/%s%s' % (clause, t['mode'], ops[-1] if ops else '-', '+link-lost' if lost else '')
+
+
+def _view_b(t):
+    ev = [{k: v for k, v in e.items() if k == 'e' or v not in (0, '', [], False)} for e in t['ev'][:80]]
+    return {'events': ev, 'n_events': len(t['ev']), 'blocked': t['blocked'], 'devblocks': t['devblocks'], 'verdict': t.get('verdict')}
+
+
+def report_b(out, bad):
+    for (t, clause, at) in sorted(bad, key=lambda b: len(b[0]['ev'])):
+        out.violation(signature_b(t, clause, at), clause,
+                      {'helper': 'Multiranger' if t['mode'] == 'ranger' else 'reset_estimator', 'event_index': at,
+                       'trace': _view_b(t)}, {'family': 'loghelper', 'scenario': t['sc']})
+
+
+def _replay_job_b(beh):
+    """behaviour of LogHelper.tla -> (trace, steps, matched, first mismatch)"""
+    st1 = None
+    for label, st in beh:
+        if tlc.parse_label(label)[0] == 'Setup':
+            st1 = st
+            break
+    if st1 is None:
+        return None
+    mode = 'ranger' if len(st1['mon']['mode']) == 6 else 'estimator'
+    sc = {'mode': st1['mon']['mode'], 'rate': st1['rate'], 'haskalman': st1['haskalman'], 'script': list(st1['script']),
+          'data': [], 'driver': ['replay'], 'down': None}
+    buf = io.StringIO()
+    steps = matched = 0
+    first = None
+    with contextlib.redirect_stdout(buf):
+        with vsched.scheduler(vsched.FifoPolicy(), max_steps=400000) as s:
+            x = ExecB(sc, s)
+            try:
+                started = False
+                for label, st in beh[1:]:
+                    name, args = tlc.parse_label(label)
+                    if name == 'Setup':
+                        started = True
+                        continue
+                    if not started:
+                        continue
+                    steps += 1
+                    nev = len(x.ev)
+                    why = x.replay_step(name, args, st)
+                    pr = x.project()
+                    exp = {'bid': st['bid'], 'lccf': st['lccf'], 'ladded': st['ladded'], 'dblk': dict(st['dblk']), 'inq': [r['t'] for r in st['inq']],
+                           'link': st['link'], 'vals': list(st['vals']), 'pq': list(st['pq']), 'pinfl': st['pinfl'],
+                           'ndata': st['ndata']}
+                    if exp['dblk']['id'] == 0:
+                        exp['dblk'] = {'id': 0, 'started': False, 'per': 0}
+                    if sc['mode'] != 'ranger' or x.mr is None:
+                        pr['vals'] = exp['vals']
+                    want = dict(st['obs'])
+                    want['vars'] = [list(v) for v in want['vars']]
+                    want['vals'] = list(want['vals'])
+                    want['read'] = list(want['read'])
+                    got_ev = x.ev[nev:]
+                    if want['e'] == 'pcall' or want['e'] == 'wake':
+                        # the clock of the execution starts at the end of the connection phase
+                        for e in got_ev:
+                            e['t'] -= x.t0
+                    ok = (not why) and pr == exp and got_ev == [want]
+                    if name in ('DispData', 'DispAck', 'DispP') and st['link'] != 'up' and why.startswith('blocked-at-sleep'):
+                        steps -= 1          # not realisable under this timing (see family A)
+                        first = first or {'unrealisable': True}
+                        break
+                    if ok:
+                        matched += 1
+                    elif first is None:
+                        first = {'step': steps, 'action': label, 'why': why, 'real': pr, 'spec': exp, 'events': got_ev, 'obs': want}
+                        break
+                t = x.trace()
+                t['t0'] = 0
+            finally:
+                x.cleanup()
+    t['sc'] = sc
+    return t, steps, matched, first
